@@ -51,6 +51,7 @@ type Defects struct {
 	NullObjZero      bool // F28: null for required nullable object runs validators on zero struct
 	MaxZeroIgnored   bool // maxLength/maxItems/minimum-style zero sentinel (not representable: harness never states 0)
 	AddPropObjLax    bool // additionalProperties with object/array schema: values are not validated
+	UntypedCompDef   bool // a definition that is only allOf/anyOf (no type) whose members do not all state one type is interface{}
 	NamedNullZero    bool // null at a defaulted property that refers to a validated named scalar: the zero value is validated
 	Uint8ArrayBase64 bool // --min-sized-ints: an array of integers within 0..255 is a []byte and accepts base64 strings
 	NamedFormat      bool // definition/root of a format string is a named struct type without methods
@@ -155,6 +156,9 @@ func (c *evalCtx) eval(s *sg.Schema, v any, path string, pos ctxPos) {
 		if s.Target == nil {
 			c.dontcare("unresolved-ref", path)
 			return
+		}
+		if c.d.UntypedCompDef && untypedMixedComposition(s.Target) {
+			return // defect model: such a definition is interface{}
 		}
 		// a referenced definition is never an "inline item"
 		c.eval(s.Target, v, path, ctxPos{addProp: pos.addProp, nonPtr: pos.nonPtr, viaRef: true})
@@ -294,6 +298,15 @@ func isUint8Items(s *sg.Schema) bool {
 		hi = f - 1
 	}
 	return lo >= 0 && hi <= 256
+}
+
+// untypedMixedComposition: a schema without type, properties and enum that consists of allOf/anyOf only. Behind a
+// reference the tool takes such a definition for "anything" (interface{}), whatever its members say.
+func untypedMixedComposition(t *sg.Schema) bool {
+	if t == nil || len(t.Types) > 0 || t.HasEnum || len(t.Props) > 0 {
+		return false
+	}
+	return len(t.AnyOf) > 0 || len(t.AllOf) > 0
 }
 
 func hasTypeSpecificKeywords(s *sg.Schema) bool {
